@@ -42,7 +42,7 @@ D_BASE = [0, 0.25, 1, 5, 20]  # connect durations (virtual seconds); + "exactly 
 D_EXTRA = [0.5, 2, 10]  # thorough: every boundary value
 E_QUICK = [0, 1]  # CONNECT exchange durations (tunnel only)
 E_THOROUGH = [0, 0.25, 1, 5]
-S_VALUES = [0, 1, 1.5, 5]  # time spent sending the request
+S_VALUES = [0, 1, 1.5, 5]  # time spent sending the request; + "exactly the total" per config
 GAP = 7.0  # idle time between two requests of one execution
 ROUTES = ["direct", "https", "tunnel"]
 PROXY = "http://proxy.test:3128"
@@ -409,6 +409,7 @@ def histories(route, eff, thorough):
     if lim(t) != INF:
         ds.add(lim(t))  # a connect that takes exactly the total
     es = (E_THOROUGH if thorough else E_QUICK) if route == "tunnel" else [0]
+    ss = sorted(set(S_VALUES) | ({lim(t)} if lim(t) != INF else set()))  # + a send that takes exactly the total
     out = []
     for d in sorted(ds):
         if d > C:
@@ -417,13 +418,13 @@ def histories(route, eff, thorough):
         for e in es:
             if e > C:
                 continue
-            for s in S_VALUES:
+            for s in ss:
                 if s <= C:
                     out.append([mkstep(d, e, s)])
             if 0 < ref_read(t, c, r, d + e) < INF:
                 out.append([mkstep(d, e, 0, "stall")])
     warm = mkstep()
-    for s in S_VALUES:
+    for s in ss:
         if s <= C:
             out.append([warm, mkstep(0, 0, s)])
     if 0 < ref_read(t, c, r, 0) < INF:
@@ -601,7 +602,16 @@ def check_invalid_shorthand(form, name, route, acc):
     acc.n += 1
     acc.counters["family:invalid"] += 1
     acc.outcomes["invalid:ValueError"] += 1
-    if got != ["ValueError", 0]:
+    try:
+        hash(v)
+        hashable = True
+    except TypeError:
+        hashable = False
+    if form == "manager" and not hashable and got == ["TypeError", 0]:
+        # a manager-level value becomes part of the pool key before any Timeout is built; an
+        # unhashable one is rejected there (TypeError), still before anything reaches the network
+        acc.counters["either:manager-unhashable-rejected-by-pool-key"] += 1
+    elif got != ["ValueError", 0]:
         acc.violation("invalid-value-validation", {"form": form, "field": "shorthand", "value": name, "got": got[0]}, case,
                       observed=got, expected=["ValueError", 0])
     return got
